@@ -250,13 +250,20 @@ func (Prop) Gen(seed int64, tier string) *harness.Case {
 		w.Clients, total = nil, 0
 		w.SInit = map[string]int{}
 		size := 16 + r.Intn(6)
-		for i := 0; i < size; i++ {
-			w.SInit[fmt.Sprintf("i%02d", i)] = 100 + i
+		// thresholds of such maintenance are powers of two more often than not: some scopes see 64+ and 128+ deletions
+		switch r.Intn(10) {
+		case 0, 1, 2:
+			size = 66 + r.Intn(30)
+		case 3:
+			size = 130 + r.Intn(30)
 		}
-		keep := fmt.Sprintf("i%02d", size-1)
+		for i := 0; i < size; i++ {
+			w.SInit[fmt.Sprintf("i%03d", i)] = 100 + i
+		}
+		keep := fmt.Sprintf("i%03d", size-1)
 		var del []Op
 		for i := 0; i < size-2; i++ {
-			del = append(del, Op{Kind: "Delete", Name: fmt.Sprintf("i%02d", i)})
+			del = append(del, Op{Kind: "Delete", Name: fmt.Sprintf("i%03d", i)})
 		}
 		var st []Op
 		for i := 0; i < 3+r.Intn(3); i++ {
@@ -294,6 +301,8 @@ const (
 type stubLookup struct{ v reflect.Value }
 
 func (l *stubLookup) Get(symbol string) (reflect.Value, error) {
+	// the host's lookup takes its time: other tasks run while this one is inside it
+	simrt.Yield("host")
 	if symbol == lookupName {
 		return l.v, nil
 	}
@@ -301,6 +310,7 @@ func (l *stubLookup) Get(symbol string) (reflect.Value, error) {
 }
 
 func (l *stubLookup) Type(symbol string) (reflect.Type, error) {
+	simrt.Yield("host")
 	return env.NilType, fmt.Errorf("lookup: no type %s", symbol)
 }
 
